@@ -213,7 +213,8 @@ func (s *Scen) aggVariants(site attSite, h *aggMsg, nonSel []int) []*aggMsg {
 					in = true
 				}
 			}
-			if !in && sc.Validator(cand).IsActive(epoch) {
+			fv := sc.Validator(cand)
+			if !in && fv.IsActive(epoch) {
 				m.aggregator = cand
 				m.selKey = sc.KeyOf(cand)
 				m.outKey = m.selKey
@@ -309,7 +310,7 @@ func (s *Scen) aggHistories(tier string, rng *rand.Rand) []*History {
 	}
 	back := common.Slot(2 * uint64(s.spec().SLOTS_PER_EPOCH))
 	if s.Name == "nofin" {
-		back = 36
+		back = 12
 	}
 	// committee sites (position 0 as placeholder; the aggregator is chosen below)
 	type csite struct {
